@@ -141,6 +141,25 @@ def check_crop(spec, ctx):
     nps = arrays.crop_dim(arr, "time", **{k: (np.float64(v) if isinstance(v, float) else v) for k, v in kw.items()})
     if not pos.identical(out) or not nps.identical(out):
         ctx.fail("crop_dim written positionally / with numpy scalars differs from the keyword call", spec, None, None, kind="call_style")
+    if not arrays.crop_dim(arr, arrays.Dimensions.time, **kw).identical(out):
+        ctx.fail("crop_dim with the dimension given as Dimensions.time differs from the call with 'time'", spec, None, None, kind="call_style")
+    # cropping goes by the coordinate labels: on an axis that is NOT evenly spaced (octave bands, custom bin edges; no step attribute)
+    # the same interval rule holds
+    import xarray as xr
+
+    irr = np.array(coords, dtype=float)
+    for k_ in range(1, irr.size - 1):  # the first and the last coordinate stay; interior ones move by 0 / 30 / 60 % of a step
+        irr[k_] = coords[k_] + 0.3 * (k_ % 3) * (coords[k_ + 1] - coords[k_])
+    arr_i = xr.DataArray(np.arange(1, irr.size + 1, dtype=float), dims=("time",), coords={"time": irr})
+    out_i = ctx.call(spec, "crop_dim(unevenly spaced axis)", arrays.crop_dim, arr_i, "time", **kw)
+    lo_i, hi_i = kw.get("start", irr[0]), kw.get("stop", irr[-1])
+    lc_i, rc_i = kw.get("left_closed", True), kw.get("right_closed", False) if "stop" in kw else True
+    if "start" not in kw:
+        lc_i = True
+    exp_i = [k + 1 for k, c_ in enumerate(irr) if (c_ > lo_i or (lc_i and c_ == lo_i)) and (c_ < hi_i or (rc_i and c_ == hi_i))]
+    eps_zone = [c_ for c_ in irr if 0 < abs(c_ - lo_i) <= 2e-5 or 0 < abs(c_ - hi_i) <= 2e-5]
+    if not eps_zone and [int(x) for x in out_i.values.tolist()] != exp_i:
+        ctx.fail(f"crop_dim on an unevenly spaced axis kept samples {[int(x) for x in out_i.values.tolist()][:5]}.. ({out_i.sizes['time']}), the interval holds {exp_i[:5]}.. ({len(exp_i)})", spec, [int(x) for x in out_i.values.tolist()], exp_i, kind="selection_irregular")
     if lc and not rc:  # documented defaults: left_closed=True, right_closed=False
         kw_d = {k: v for k, v in kw.items() if k in ("start", "stop")}
         if not arrays.crop_dim(arr, "time", **kw_d).identical(out) and not (spec["none_start"] or spec["none_stop"]):
@@ -202,6 +221,9 @@ def check_extend(spec, ctx):
     nps = arrays.extend_dim(arr, "time", **{k: (np.float64(v) if isinstance(v, float) else v) for k, v in kw.items()})
     if not nps.identical(out):
         ctx.fail("extend_dim called with numpy scalars differs from the call with Python floats", spec, None, None, kind="call_style")
+    enm = arrays.extend_dim(arr, arrays.Dimensions.time, **kw)  # the library's own Dimensions member is a str equal to "time"
+    if not enm.identical(out):
+        ctx.fail("extend_dim with the dimension given as Dimensions.time differs from the call with 'time'", spec, None, None, kind="call_style")
     oc = out.coords["time"].values
     first, why = embedded(arr, out, FILL)
     if first is None:
